@@ -55,7 +55,6 @@ def expected : Path → List Tok
   | .act (.append _ _) _ _ :: xs => .commit :: expected xs
   | .act (.publish k _) _ _ :: xs => .publish (busKind k) :: expected xs
   | .fin ok cls :: xs => .fin ok cls :: expected xs
-  | .panic _ :: xs => .fin false "panic" :: expected xs
   | _ :: xs => expected xs
 
 /-- error class of the skeleton vs the harness's classification of the returned error -/
